@@ -361,22 +361,30 @@ def type_specs(tier):
     level 2 = one constructor over rows of {Bool, Qubit} + representatives of level 1;
     thorough adds level 3 and 3-variant sums."""
     leaves = leaf_types()
-    l1 = composites(REPS1, 2, 2)
+    xd = tier == "xdeep"
+    deep = tier in ("deep", "xdeep")
+    l1 = composites(REPS1, 3 if xd else 2, 2)
     # std containers over level-1 element types
     r1 = reps_level(l1)
     cont1 = []
     for e in r1:
         cont1 += [["array", 1, e], ["list", e]]
-    big = tier in ("thorough", "deep")
-    l2 = composites([BOOL, QB, *r1[: 6 if tier != "deep" else 9]], 2 if big else 1, 2)
+    big = tier in ("thorough", "deep", "xdeep")
+    l2 = composites([BOOL, QB, *r1[: 6 if not deep else 12 if xd else 9]], 2 if big else 1, 2)
     out = leaves + l1 + cont1 + l2
     if big:
         r2 = reps_level(l2)
-        l3 = composites([QB, *r2[: 5 if tier != "deep" else 9]], 1 if tier != "deep" else 2, 2)
+        l3 = composites([QB, *r2[: 5 if not deep else 12 if xd else 9]], 1 if not deep else 2, 2)
         l1b = [["Sum", [list(a), list(b), list(c)]] for a, b, c in itertools.product(rows_over([BOOL, QB], 1), repeat=3)]
         out += l3 + l1b
-        for e in r2[:8]:
+        for e in r2[: 8 if not xd else 40]:
             out += [["array", 1, e], ["list", e]]
+        if xd:
+            r3 = reps_level(l3)
+            out += composites([BOOL, *r3[:7]], 2, 1)
+            l1c = [["Sum", [list(r) for r in vs]] for vs in itertools.product(rows_over([BOOL, QB], 2), repeat=3)]
+            l1d = [["Sum", [list(r) for r in vs]] for vs in itertools.product(rows_over([BOOL, QB], 1), repeat=4)]
+            out += l1c + l1d
     # dedupe preserving order
     seen, res = set(), []
     for t in out:
